@@ -105,6 +105,8 @@ class C02(Prop):
             want = [(e["d"], e["payload"]) for e in c["expected"]]
             if want:
                 out.nontrivial = True
+            if c.get("undecodable_packets"):
+                out.count("packets_outside_sender_window", c["undecodable_packets"])
             cls = seq_mismatch_class(got, want)
             if cls:
                 all_ok = False
